@@ -1,5 +1,6 @@
 #!/usr/bin/env python3
-"""setup_cmd: offline sanity check of the tool chain the checks rely on (nothing to build)."""
+"""setup_cmd: offline sanity check of the tool chain the checks rely on; pre-builds the bounded stand-in harness (it is rebuilt
+against /repo's working tree by every check anyway; doing it here keeps the first check fast)."""
 import shutil, subprocess, sys, os
 ok = True
 for tool in ("verus", "python3"):
@@ -8,4 +9,6 @@ for tool in ("verus", "python3"):
 p = subprocess.run(["verus", "--version"], capture_output=True, text=True)
 print(p.stdout.strip().splitlines()[1] if p.returncode == 0 and len(p.stdout.splitlines()) > 1 else p.stderr[:200])
 os.makedirs(os.path.join(os.path.dirname(os.path.dirname(os.path.abspath(__file__))), "build"), exist_ok=True)
+b = subprocess.run([os.path.join(os.path.dirname(os.path.dirname(os.path.abspath(__file__))), "bounded", "build.sh")], capture_output=True, text=True)
+print("bounded harness:", b.stdout.strip() if b.returncode == 0 else "NOT BUILT (checks fall back to the deductive verdict): " + b.stderr[-300:])
 sys.exit(0 if ok and p.returncode == 0 else 1)
